@@ -72,8 +72,11 @@ func c04GenServices(t *rapid.T, maxN int) []vfSvcSpec {
 		nh := rapid.IntRange(0, 3).Draw(t, "nhosts")
 		for j := 0; j < nh; j++ {
 			h := c04GenHost(t, "host")
-			if rapid.IntRange(0, 3).Draw(t, "wild") == 0 {
+			switch rapid.IntRange(0, 9).Draw(t, "wild") {
+			case 0, 1, 2:
 				h = "*." + h
+			case 3: // an IP literal as the bound host
+				h = rapid.SampledFrom([]string{"::1", "[::1]", "127.0.0.1"}).Draw(t, "ip-host")
 			}
 			s.Hosts = append(s.Hosts, h)
 		}
@@ -179,7 +182,7 @@ func c04Gen(t *rapid.T) c04Plan {
 	p := c04Plan{}
 	p.Services = c04GenServices(t, 6)
 	p.Order2 = rapid.Permutation(vfIota(len(p.Services))).Draw(t, "order2")
-	p.Detour = rapid.IntRange(0, 2).Draw(t, "detour")
+	p.Detour = rapid.IntRange(0, 3).Draw(t, "detour")
 	p.DetourOn = rapid.IntRange(0, len(p.Services)-1).Draw(t, "detour-on")
 	p.Restart = rapid.Bool().Draw(t, "restart")
 	p.Requests = c04GenRequests(t, p.Services)
@@ -226,6 +229,7 @@ func c04Run(t *testing.T, p c04Plan) (res vfResult) {
 			}
 		}
 		r2 := w.newRouter("r2")
+		r2Extra := false
 		if p.Detour == 1 {
 			// a service that takes (and gives back) bindings others will want
 			victim := p.Services[p.DetourOn%len(p.Services)]
@@ -239,6 +243,20 @@ func c04Run(t *testing.T, p c04Plan) (res vfResult) {
 				return
 			}
 			res.label("detour:deploy-remove")
+		}
+		if p.Detour == 3 {
+			// a service on a host of its own (one the request matrix asks for) comes and goes: afterwards that host
+			// must again fall through to whatever wildcard / default service covers it
+			host := vfHostOnly(p.Requests[p.DetourOn%len(p.Requests)].Host)
+			extra := vfSvcSpec{Name: "extra", Hosts: []string{host}}
+			if host != "" && !vfConflict(p.Services, extra) {
+				if err := vfDeploySpec(r2, extra, "tgx:80"); err != nil {
+					res.failf("deploy-error", "router2: detour deploy on %q failed: %v", host, err)
+					return
+				}
+				res.label("detour:own-host-deploy-remove")
+				r2Extra = true
+			}
 		}
 		for _, i := range p.Order2 {
 			if i >= len(p.Services) {
@@ -255,6 +273,13 @@ func c04Run(t *testing.T, p c04Plan) (res vfResult) {
 			}
 			if err := vfDeploySpec(r2, s, targetOf[s.Name]); err != nil {
 				res.failf("deploy-error", "router2: deploy of %+v failed: %v", s, err)
+				return
+			}
+		}
+		if r2Extra {
+			// removed only after everything else is in place
+			if err := r2.RemoveService("extra"); err != nil {
+				res.failf("deploy-error", "router2: detour remove failed: %v", err)
 				return
 			}
 		}
